@@ -22,7 +22,7 @@ INV_PROP = {
     'committed_entry_changed': 'C04', 'log_matching': 'C04', 'leader_commit_old_term': 'C04',
     # C05
     'no_convergence': 'C05',
-    'log_empty': 'C09',
+    'log_empty': 'C09', 'log_gap': 'C09',
 }
 
 
@@ -221,6 +221,11 @@ class RaftOracle(object):
         applied = node.raftLastApplied
         term = node.raftCurrentTerm
         state = priv(node, 'SyncObj', 'raftState')
+        if log[0][1] > applied and not fresh and not priv(node, 'SyncObj', 'needLoadDumpFile'):
+            # whatever compaction and snapshot installation do, the log keeps the entry at the applied position (the
+            # snapshot's last entry): a log that starts beyond it has lost entries the node has not executed
+            self.flag('log_gap', 'host %d: its log starts at position %d but it has applied only up to %d: the entries in between are gone' % (
+                host.idx, log[0][1], applied), dict(host=host.idx))
         # C04 (a): indices monotone within an incarnation
         if not fresh:
             if commit < v.commit:
